@@ -85,8 +85,83 @@ func (s *KS) Clone() *KS {
 	return c
 }
 
-// expired reports whether the key's deadline has passed (strict rule: now >= deadline).
-func (s *KS) expired(e *Entry) bool { return e.Exp != 0 && s.NowMs >= e.Exp }
+// expired reports whether the key's deadline has passed.  Strict rule: now >= deadline.
+// Lax rule (C06, one-second clock granularity): only from deadline + 1 s on is a key
+// *definitely* gone; inside (deadline - 1 s, deadline + 1 s) it is ambiguous (see Ambiguous).
+func (s *KS) expired(e *Entry) bool {
+	if e.Exp == 0 {
+		return false
+	}
+	if s.Lax {
+		return s.NowMs >= e.Exp+1000
+	}
+	return s.NowMs >= e.Exp
+}
+
+// Ambiguous lists the keys whose deadline lies within one second of now (lax rule only).
+func (s *KS) Ambiguous() []string {
+	var out []string
+	if !s.Lax {
+		return nil
+	}
+	for k, e := range s.M {
+		if e.Exp != 0 && s.NowMs > e.Exp-1000 && s.NowMs < e.Exp+1000 {
+			out = append(out, k)
+		}
+	}
+	sort.Strings(out)
+	return out
+}
+
+// ApplyLax returns the outcomes of args under every resolution of the ambiguous keys
+// (each either still visible or already gone).
+func (s *KS) ApplyLax(args [][]byte) []Outcome {
+	amb := s.Ambiguous()
+	if len(amb) == 0 {
+		return s.Apply(args)
+	}
+	var outs []Outcome
+	for mask := 0; mask < 1<<uint(len(amb)); mask++ {
+		v := s.Clone()
+		for i, k := range amb {
+			if mask>>uint(i)&1 == 1 {
+				delete(v.M, k)
+			}
+		}
+		outs = append(outs, v.Apply(args)...)
+	}
+	return outs
+}
+
+// DiffCanonLax compares canonical forms under the lax expiry rule: a key present on one side
+// only is acceptable when, on that side, its deadline is within one second of now or has
+// passed (its physical presence is then not observable as such); keys present on both sides
+// must agree exactly (deadlines to the tolerance).
+func DiffCanonLax(model, impl []CanonKey, nowMs, ttlTolMs int64) string {
+	mi := map[string]CanonKey{}
+	for _, k := range model {
+		mi[k.Key] = k
+	}
+	ii := map[string]CanonKey{}
+	for _, k := range impl {
+		ii[k.Key] = k
+	}
+	soft := func(k CanonKey) bool { return k.TTL != 0 && nowMs > k.TTL-1000 }
+	var m2, i2 []CanonKey
+	for _, k := range model {
+		if _, ok := ii[k.Key]; !ok && soft(k) {
+			continue
+		}
+		m2 = append(m2, k)
+	}
+	for _, k := range impl {
+		if _, ok := mi[k.Key]; !ok && soft(k) {
+			continue
+		}
+		i2 = append(i2, k)
+	}
+	return DiffCanon(m2, i2, ttlTolMs)
+}
 
 // get returns the live entry or nil, lazily dropping an expired one.
 func (s *KS) get(k string) *Entry {
